@@ -16,7 +16,7 @@ rm -f "$OUT/demo.rs"
 if [ ! -f "$S/demo.sh" ] && [ -f "$S/demo.rs" ]; then cp "$S/demo.rs" "$OUT/demo.rs"; fi
 WT=/tmp/seedeval-$ID-${AS:-$X}
 rm -rf "$WT"; git -C /repo worktree prune; git -C /repo worktree add -q "$WT" HEAD || exit 3
-export CARGO_TARGET_DIR=/tmp/seedeval-target CARGO_NET_OFFLINE=true
+export CARGO_TARGET_DIR=${SEED_TGT:-/tmp/seedeval-target} CARGO_NET_OFFLINE=true
 LOG="$OUT/confirm.log"; : > "$LOG"
 demo_run() { ( cd "$WT" && cp "$OUT/demo.rs" tests/zz_seed_demo.rs && cargo test --offline --features full --test zz_seed_demo 2>&1 | grep -E "^test result|error(\[|:)|FAILED|panicked" | head -5 ); }
 res_without="n/a"; res_with="n/a"
@@ -54,7 +54,7 @@ rm -f "$LOG.suite"
 echo "== checks against the patched tree" >> "$LOG"
 verdicts=""
 for P in $ID $EXTRA; do
-  DM_REPO="$WT" DMV_EVIDENCE_DIR=/tmp/dmv-scratch-evidence DMV_WORK=/verif/.work-seed /verif/check "$P" > "$OUT/check-$P.out" 2>&1; rc=$?
+  DM_REPO="$WT" DMV_EVIDENCE_DIR=/tmp/dmv-scratch-evidence-$(basename ${SEED_WORK:-work-seed}) DMV_WORK=${SEED_WORK:-/verif/.work-seed} /verif/check "$P" > "$OUT/check-$P.out" 2>&1; rc=$?
   grep -E "^VIOLATION|summary|^$P " "$OUT/check-$P.out" | head -6 >> "$LOG"
   verdicts="$verdicts $P=exit$rc"
   rm -rf /verif/replays/$P
